@@ -1,5 +1,6 @@
 """Check driver: build -> regression/known-finding replay -> seeded generation -> (thorough: libFuzzer)
 -> triage -> evidence.  See DESIGN.md 2.5 / 3.6."""
+import atexit, shutil
 import os, sys, json, time, glob, shutil, subprocess, hashlib, array, re, signal
 from concurrent.futures import ThreadPoolExecutor
 
@@ -87,7 +88,8 @@ class Target:
         self.budget = spec.get('budget', 20)
         self.args = spec.get('args', [])
         self.exes = {}
-        self.wdir = os.path.join(WORK, prop, self.name)
+        self.wdir = os.path.join(WORK, prop, '%s.%d' % (self.name, os.getpid()))     # private to this run: two runs of one check at the same time must not share worker files
+        atexit.register(shutil.rmtree, self.wdir, True)
 
     def build(self, engines):
         self.exes = B.build_harness(self.name, self.spec, engines)
@@ -334,6 +336,10 @@ class Runner:
                 path = os.path.join(rd, '%s__gen_%d_%d.genrun' % (t.name, sseed, per))
                 json.dump({'target': t.name, 'seed': sseed, 'n': per, 'maxlen': t.maxlen, 'summary': fail_summary(lgtxt[-20000:])}, open(path, 'w'))
                 self.violations.append((t.name, path, 'whole generated run fails deterministically (state carried between cases): ' + fail_summary(lgtxt[-20000:])))
+        bad = set(w for (w, _, _, _, _) in failed)
+        for (w, p, cur, st, lg, sseed, per) in procs:
+            if (w not in bad) and (p.returncode == 0) and (not os.path.exists(st)):
+                self.harness_errors.append('%s: worker %d finished but left no statistics file' % (t.name, w))
         return self.collect_stats(t, [st for (_, _, _, st, _, _, _) in procs])
 
     def collect_stats(self, t, files):
